@@ -8,7 +8,7 @@ RULE = ("candidate lists of 2-5 names (same and different bases, tied versions s
         "non-matching names) against glob/dewey/alternate/plain patterns; every ordered pair is asked through best_match and "
         "compared with the model; all permutations (<= 4 candidates) and random reduction trees are folded over the "
         "implementation's own pairwise answers; non-trivial = at least two candidates match the pattern")
-FUNCTIONAL = False
+FUNCTIONAL = True
 TIES = ["1.0", "1.0.0", "1_0", "1pl0", "1.0pl", "1.", "1", "1.0nb0", "01.0", "1.0nb1", "1.0.0nb1", "1.0alpha", "1.0ALPHA", "1.0rc1", "1.0pre1", "2", "0.9", "1a", "1A", "1_a"]
 
 
@@ -27,6 +27,11 @@ def generate(rng, tier):
             cands.append(b + "-" + v)
         if rng.random() < 0.2:
             cands[-1] = cands[0]
+        if rng.random() < 0.35:
+            # hyphenated bases that differ after their first '-': the version is what follows the LAST '-'
+            hb = rng.sample(["foo-b", "foo-a", "x-9", "x-1", "p5-DBD-mysql", "p5-DBD-MariaDB", "lib-alpha", "lib-beta", "a-2.0", "a-1"], 3)
+            pat = rng.choice(["*", "{" + ",".join(hb) + "}-[0-9]*", "*-[0-9]*"])
+            cands = [rng.choice(hb) + "-" + rng.choice(["1.0", "2.0", "1.0nb1", "1.5", "0.9", "3"]) for _ in range(k)]
         for i, a in enumerate(cands):
             for j, b in enumerate(cands):
                 cases.append(Case("pat.best", [enc(pat), enc(a), enc(b)], meta={"group": g, "i": i, "j": j, "cands": cands, "pat": pat}))
